@@ -2,6 +2,8 @@
 
 package sctp
 
+import "time"
+
 // SACK processing obligations (serve C03.L3, C15.L3, C10.L2, C19.L4, C02.L3).
 
 type vFlight struct {
@@ -342,5 +344,187 @@ func vh_C15_L5_per_stream_release() {
 	vassert(s2.BufferedAmount() == 0, "the second stream is released exactly its own 5 acknowledged bytes")
 	vassert(uint64(a.BufferedAmount()) == s1.BufferedAmount()+s2.BufferedAmount(), "the streams' figures add up to the association's")
 	vassert(fired1 == 1 && fired2 == 1, "each stream that crossed its threshold is told once")
+	vcover("end")
+}
+
+// C15.L5b: the same with gap blocks that span several streams. Five chunks in flight,
+// alternating between two streams (sizes 3, 5, 7, 11, 13); a SACK with any cumulative
+// advance 0..3 and one or two gap blocks anywhere above it (every start/end, so a block may
+// cover chunks of both streams), then a cumulative SACK over everything: after each, every
+// stream's buffered amount equals the bytes of its own chunks not yet acknowledged, the
+// figures add up to the association's, and each stream is told once when it crosses its
+// threshold.
+func vh_C15_L5_gap_blocks_across_streams() {
+	vStub("setNewRTT")
+	a, _ := vNewAssoc()
+	s1, _ := a.OpenStream(1, PayloadTypeWebRTCBinary)
+	s2, _ := a.OpenStream(2, PayloadTypeWebRTCBinary)
+	sizes := []int{3, 5, 7, 11, 13}
+	for i, sz := range sizes {
+		s := s1
+		if i%2 == 1 {
+			s = s2
+		}
+		_, werr := s.WriteSCTP(make([]byte, sz), PayloadTypeWebRTCBinary)
+		vassert(werr == nil, "write accepted")
+	}
+	a.cwnd, a.rwnd = 1<<20, 1<<20
+	budget, consumed := int64(0), false
+	a.lock.Lock()
+	chunks, _ := a.popPendingDataChunksToSend(&budget, &consumed)
+	a.lock.Unlock()
+	vassert(len(chunks) == 5, "five chunks in flight")
+	fired1, fired2 := 0, 0
+	s1.SetBufferedAmountLowThreshold(0)
+	s2.SetBufferedAmountLowThreshold(0)
+	s1.OnBufferedAmountLow(func() { fired1++ })
+	s2.OnBufferedAmountLow(func() { fired2++ })
+	base := a.cumulativeTSNAckPoint
+	adv := vPick(4)
+	// first block [g1s, g1e] above the new cumulative point (offsets from it, at least 2)
+	g1s := 2 + vPick(5-adv-1)
+	g1e := g1s + vPick(5-adv-g1s+1)
+	blocks := []gapAckBlock{{uint16(g1s), uint16(g1e)}}
+	if g1e+2 <= 5-adv && vPick(2) == 1 {
+		g2s := g1e + 2
+		blocks = append(blocks, gapAckBlock{uint16(g2s), uint16(g2s + vPick(5-adv-g2s+1))})
+	}
+	acked := func(i int) bool { // chunk i (0-based) is acknowledged by the first SACK
+		off := i + 1 - adv
+		if off <= 0 {
+			return true
+		}
+		for _, b := range blocks {
+			if off >= int(b.start) && off <= int(b.end) {
+				return true
+			}
+		}
+		return false
+	}
+	sack := &chunkSelectiveAck{cumulativeTSNAck: base + uint32(adv), advertisedReceiverWindowCredit: 1 << 20, gapAckBlocks: blocks}
+	vassert(vDeliver(a, sack) == nil, "SACK ok")
+	left1, left2 := 0, 0
+	for i, sz := range sizes {
+		if !acked(i) {
+			if i%2 == 0 {
+				left1 += sz
+			} else {
+				left2 += sz
+			}
+		}
+	}
+	vassert(s1.BufferedAmount() == uint64(left1), "the first stream keeps exactly the bytes of its own unacknowledged chunks")
+	vassert(s2.BufferedAmount() == uint64(left2), "the second stream keeps exactly the bytes of its own unacknowledged chunks")
+	vassert(uint64(a.BufferedAmount()) == s1.BufferedAmount()+s2.BufferedAmount(), "the streams' figures add up to the association's")
+	vassert(fired1 == 0 || left1 == 0, "no callback before the stream reaches its threshold")
+	vassert(fired2 == 0 || left2 == 0, "no callback before the stream reaches its threshold")
+	all := &chunkSelectiveAck{cumulativeTSNAck: base + 5, advertisedReceiverWindowCredit: 1 << 20}
+	vassert(vDeliver(a, all) == nil, "SACK ok")
+	vassert(s1.BufferedAmount() == 0 && s2.BufferedAmount() == 0 && a.BufferedAmount() == 0, "everything acknowledged: every figure is exactly zero")
+	vassert(fired1 == 1 && fired2 == 1, "each stream is told exactly once that it reached its threshold")
+	vcover("end")
+}
+
+// vOutstandingBytes is the reference for a stream's buffered amount in scenarios where only
+// that stream has data waiting to be sent: the user bytes waiting, plus the user bytes of
+// its chunks that are in flight and not yet acknowledged.
+func vOutstandingBytes(a *Association, sid uint16) uint64 {
+	n := a.pendingQueue.getNumBytes()
+	for i := 0; i < a.inflightQueue.size(); i++ {
+		c := a.inflightQueue.chunks.At(i)
+		if c.streamIdentifier == sid && !c.acked {
+			n += len(c.userData)
+		}
+	}
+	return uint64(n)
+}
+
+// C15.L6: a stream reset does not touch the accounting. Two messages (3 and 5 bytes) are
+// written and the stream is closed; the peer receives everything and answers with a SACK
+// and the reset response, which arrive in either order (and the SACK possibly only after
+// the delayed-ack timer): after every packet the stream's buffered amount is exactly the
+// bytes of its chunks not yet acknowledged, it ends at zero, agrees with the association's
+// figure, and the low-threshold callback fires once, when the last byte is acknowledged.
+func vh_C15_L6_reset_answer_does_not_touch_the_accounting() {
+	il := vPick(2) == 1
+	a, b := vPair(vAssocOpts{interleaving: il, pickTSN: true})
+	s, err := a.OpenStream(1, PayloadTypeWebRTCBinary)
+	vassert(err == nil, "open stream")
+	calls := 0
+	s.OnBufferedAmountLow(func() { calls++ })
+	_, w1 := s.WriteSCTP(make([]byte, 3), PayloadTypeWebRTCBinary)
+	_, w2 := s.WriteSCTP(make([]byte, 5), PayloadTypeWebRTCBinary)
+	vassert(w1 == nil && w2 == nil, "writes accepted")
+	vassert(s.Close() == nil, "close accepted")
+	ackFirst := vPick(2) == 1
+	for round := 0; round < 6; round++ {
+		for _, raw := range vWriterWake(a) {
+			vInbound(b, raw)
+		}
+		if round > 0 {
+			vFireAck(b)
+		}
+		var first, second [][]byte
+		for _, raw := range vWriterWake(b) {
+			p := vDecode(raw)
+			hasReconfig := false
+			for _, c := range p.chunks {
+				if _, ok := c.(*chunkReconfig); ok {
+					hasReconfig = true
+				}
+			}
+			if hasReconfig != ackFirst {
+				first = append(first, raw)
+			} else {
+				second = append(second, raw)
+			}
+		}
+		for _, raw := range append(first, second...) {
+			vInbound(a, raw)
+			vassert(s.BufferedAmount() == vOutstandingBytes(a, 1), "the buffered amount is exactly the bytes not yet acknowledged, whatever else the packet carried")
+			vassert(uint64(a.BufferedAmount()) == s.BufferedAmount(), "stream and association figures agree")
+			vassert(calls == 0 || s.BufferedAmount() == 0, "no callback before the threshold is reached")
+		}
+	}
+	vassert(len(a.reconfigs) == 0, "the reset was answered")
+	vassert(s.BufferedAmount() == 0 && a.BufferedAmount() == 0, "everything acknowledged: zero")
+	vassert(calls == 1, "the low-threshold callback fires once, for the last downward crossing")
+	vcover("end")
+}
+
+// C15.L7: a blocking write that fails gives back exactly its own bytes. In blocking-write
+// mode 4 bytes are in flight and 2 bytes are waiting (the gate is closed); a third write
+// of 3 bytes parks behind the gate; while it is parked a SACK acknowledges the 4 bytes in
+// flight, and then the write deadline passes, so the parked write fails. Afterwards the
+// stream's buffered amount is exactly the 2 bytes still waiting: the acknowledgement that
+// arrived while the write was parked is not undone by the failed write's roll-back.
+func vh_C15_L7_failed_blocking_write_keeps_concurrent_release() {
+	vStub("setNewRTT")
+	vGoLive = true
+	a, _ := vNewAssocOpts(vAssocOpts{blockWrite: true, interleaving: vPick(2) == 1})
+	s, err := a.OpenStream(1, PayloadTypeWebRTCBinary)
+	vassert(err == nil, "open stream")
+	s.SetReliabilityParams(vPick(2) == 1, ReliabilityTypeReliable, 0)
+	_, w1 := s.WriteSCTP(make([]byte, 4), PayloadTypeWebRTCBinary)
+	a.cwnd, a.rwnd = 1<<20, 1<<20
+	vassert(w1 == nil && len(vWriterPass(a)) == 1 && a.inflightQueue.size() == 1, "4 bytes in flight")
+	_, w2 := s.WriteSCTP(make([]byte, 2), PayloadTypeWebRTCBinary)
+	vassert(w2 == nil && a.writePending, "2 bytes waiting, the gate is closed")
+	base := a.cumulativeTSNAckPoint
+	calls := 0
+	s.SetBufferedAmountLowThreshold(6) // 4 + 2 + 3 (the parked write is counted while it waits) -> 5 crosses it
+	s.OnBufferedAmountLow(func() { calls++ })
+	vGo(func() {
+		vSleep(50 * time.Millisecond) // the third write is parked by now
+		_ = vDeliver(a, &chunkSelectiveAck{cumulativeTSNAck: base + 1, advertisedReceiverWindowCredit: 1 << 20})
+		_ = s.SetWriteDeadline(time.Now().Add(-time.Second))
+	})
+	n, w3 := s.WriteSCTP(make([]byte, 3), PayloadTypeWebRTCBinary)
+	vassert(w3 != nil && n == 0, "the parked write fails at its deadline")
+	vassert(a.inflightQueue.size() == 0, "the acknowledgement was processed while the write was parked")
+	vassert(s.BufferedAmount() == 2, "the buffered amount is exactly the bytes still waiting: a failed write gives back its own bytes only")
+	vassert(s.BufferedAmount() == vOutstandingBytes(a, 1) && a.BufferedAmount() == 2, "stream and association figures agree")
+	vassert(calls == 1, "the downward crossing made by the acknowledgement was reported once")
+	a.closeWriteLoopOnce.Do(func() { close(a.closeWriteLoopCh) })
 	vcover("end")
 }
